@@ -340,4 +340,76 @@ def run(ctx, rep):
         if not ok:
             rep.violation('Q5', vkey('Q5', R.name, 'bpb-bits', ''), R.loc(R.span),
                           'read_status_flags does not take the boot-sector status bits into account')
+
+    # ---------------- Q6 a size change is bracketed too: the entry write-back itself never sets the flag
+    # (DirEntryEditor::write goes to the device directly), so File::truncate must, after changing the recorded size,
+    # cross something that sets it: set_dirty_flag(true) or a chain operation that writes the FAT on every Ok path
+    TR = facts.fns.get('fatfs::file::File::truncate')
+    CT = facts.fns.get('fatfs::table::ClusterIterator::truncate')
+    TC = facts.fns.get('fatfs::fs::FileSystem::truncate_cluster_chain')
+    if TR is None or CT is None or TC is None:
+        rep.machinery('ANCHOR-MISSING File::truncate / ClusterIterator::truncate / truncate_cluster_chain')
+    else:
+        def base(f, b, t, names):
+            c = t.get('callee') or ''
+            if c.endswith('table::write_fat'):
+                return True
+            return c == W.name and const_operand_value(t['args'][-1]) == 1
+        m6 = Must(facts, base)
+        # ClusterIterator::truncate: the `no current cluster` arm of the test made on entry is not a path of
+        # truncate_cluster_chain, which always passes a freshly built iterator (ClusterIterator::new stores Some)
+        exempt = set()
+        b0 = 0
+        seen0 = set()
+        while b0 not in seen0 and CT.blocks[b0]['term']['k'] in ('goto', 'assert'):
+            seen0.add(b0)
+            b0 = CT.succ(b0)[0]
+        t0 = CT.blocks[b0]['term']
+        src0 = switch_source(CT, b0) if t0['k'] == 'switch' else None
+        if src0 and src0['kind'] == 'discr' and [e.get('n') for e in src0['place']['p'] if 'f' in e][-1:] == ['cluster']:
+            some = [x for v, x in t0['targets'] if v == 1]
+            exempt = {(b0, x) for x in CT.succ(b0) if x not in some}
+        NEW = facts.fns.get('fatfs::table::ClusterIterator::new')
+        fresh = NEW is not None and any(
+            s['k'] == 'assign' and s['rv']['k'] == 'agg' and s['rv'].get('variant') == 'Some'
+            for bi in NEW.reachable() for s in NEW.blocks[bi]['stmts'])
+        if not fresh:
+            exempt = set()
+        cut_ct = m6.crossing_edges(CT, set()) | exempt
+        reach = CT.reach_from([0], cut_blocks=error_blocks(CT), cut_edges=cut_ct)
+        ct_ok = not [r for r in CT.return_blocks() if r in reach]
+        members = {CT.name} if ct_ok else set()
+        tc_ok = m6.passes(TC, members)[0]
+        if tc_ok:
+            members.add(TC.name)
+        # File::truncate: Ok paths after set_size
+        sets = [b for b, t in TR.calls() if (t.get('callee') or '').endswith('DirEntryEditor::set_size')]
+        cut = m6.crossing_edges(TR, members)
+        # the chain-release arm (offset 0): free_cluster_chain frees at least the first cluster; the `already empty`
+        # arm (first_cluster is None) changes nothing
+        for b, t in TR.calls():
+            if (t.get('callee') or '').endswith('FileSystem::free_cluster_chain'):
+                cut |= {(b, x) for x in TR.succ(b)}
+        for bi in TR.reachable():
+            tt = TR.blocks[bi]['term']
+            if tt['k'] == 'switch':
+                src = switch_source(TR, bi)
+                if src and src['kind'] == 'discr' and [e.get('n') for e in src['place']['p'] if 'f' in e][-1:] == ['first_cluster']:
+                    some = [x for v, x in tt['targets'] if v == 1]
+                    cut |= {(bi, x) for x in TR.succ(bi) if x not in some}
+        before = TR.reach_from([0], cut_blocks=error_blocks(TR), cut_edges=cut)
+        starts = [x for b in sets if b in before for x in TR.succ(b)]
+        reach = TR.reach_from(starts, cut_blocks=error_blocks(TR), cut_edges=cut) if starts else set()
+        bad = [r for r in TR.return_blocks() if r in reach]
+        ok = bool(sets) and not bad
+        rep.oblige('Q6', TR.name, ok=ok, nontrivial=True,
+                   sample={'fn': TR.name, 'ClusterIterator::truncate always writes the FAT': ct_ok,
+                           'truncate_cluster_chain always writes the FAT': tc_ok})
+        if not ok:
+            rep.violation('Q6', vkey('Q6', TR.name, 'size-change-unbracketed', ''), TR.loc(TR.span),
+                          'File::truncate can change the recorded size and return Ok without anything having set the '
+                          'dirty bit: the entry write-back does not set it, and %s' % (
+                              'ClusterIterator::truncate has an Ok path that does not write the FAT' if not ct_ok else
+                              'truncate_cluster_chain has an Ok path that does not write the FAT' if not tc_ok else
+                              'a path after set_size crosses neither set_dirty_flag(true) nor a chain operation'))
     rep.counts['Q1.sites'] = n_sites
